@@ -53,11 +53,11 @@ BOUNDS = {
     "quick": "all directed graphs over 1 and 2 states (every subset of ordered pairs incl. self-loops; and one of the variants {all self-loops internal, an internal "
     "transition between different states, a from_.any() edge to one target, a duplicated edge, from_.any() + internal}), all graphs over 3 states "
     "with 1..3 edges (the variants on the single-edge ones); "
-    "for every graph all assignments of initial/final flags and strict_states (symbolic).",
+    "for every graph all assignments of initial/final flags and strict_states (symbolic); every definition is stated twice (the verdict may not depend on history) and an empty subclass with its own strict_states is validated again.",
     "thorough": "all 512 edge sets over 3 states, with the internal / from_.any() / duplicate variants.",
 }
 OUTSIDE = "4 and 5 states (2^16 and 2^25 edge sets); States.from_enum / inheritance as the source of the states (C15); abstract base classes without states"
-OBLIGATIONS = ["accepted", "warned", "rejected", "rejected-strict", "any-edge", "internal-self", "internal-nonself-rejected", "no-events"]
+OBLIGATIONS = ["subclass-revalidated", "accepted", "warned", "rejected", "rejected-strict", "any-edge", "internal-self", "internal-nonself-rejected", "no-events"]
 ASSUMPTIONS = [
     "oracle: accept iff >=1 event, exactly one initial state, no transition out of a final state, internal only on self-transitions, all states reachable from the initial one; "
     "then a non-final state without outgoing transition, or (if a final state exists) without a path to a final state, raises under strict_states and warns otherwise",
@@ -104,31 +104,32 @@ def run(ctx, params):
     strict = ctx.sym_bool("strict")
 
     # ------------------------------------------------ the class statement, under the tracer
-    outcome = None
-    caught = []
-    with warnings.catch_warnings(record=True) as caught:
-        warnings.simplefilter("always")
-        try:
-            states = [State(initial=initial[i], final=final[i]) for i in range(n)]
-            attrs = {ids[i]: states[i] for i in range(n)}
-            k = 0
-            for (i, j) in edges:
-                attrs[f"e{k}"] = states[i].to(states[j], internal=True) if (i, j) in internal else states[i].to(states[j])
-                k += 1
-            if dup is not None:
-                attrs[f"e{k}"] = states[dup[0]].to(states[dup[1]])
-                k += 1
-            if bad_internal is not None:
-                attrs[f"e{k}"] = states[bad_internal[0]].to(states[bad_internal[1]], internal=True)
-                k += 1
-            for j in any_targets:
-                attrs[f"any{j}"] = states[j].from_.any()
-            cls = type(StateMachine)("C09M", (StateMachine,), attrs, strict_states=strict)
-            outcome = "accepted"
-        except InvalidDefinition as e:
-            outcome = "raised"
-            err = str(e)
-    warned = [w for w in caught if issubclass(w.category, UserWarning)]
+    def class_statement(name):
+        with warnings.catch_warnings(record=True) as caught_:
+            warnings.simplefilter("always")
+            try:
+                states = [State(initial=initial[i], final=final[i]) for i in range(n)]
+                attrs = {ids[i]: states[i] for i in range(n)}
+                k = 0
+                for (i, j) in edges:
+                    attrs[f"e{k}"] = states[i].to(states[j], internal=True) if (i, j) in internal else states[i].to(states[j])
+                    k += 1
+                if dup is not None:
+                    attrs[f"e{k}"] = states[dup[0]].to(states[dup[1]])
+                    k += 1
+                if bad_internal is not None:
+                    attrs[f"e{k}"] = states[bad_internal[0]].to(states[bad_internal[1]], internal=True)
+                    k += 1
+                for j in any_targets:
+                    attrs[f"any{j}"] = states[j].from_.any()
+                cls_ = type(StateMachine)(name, (StateMachine,), attrs, strict_states=strict)
+                return "accepted", cls_, "", [w for w in caught_ if issubclass(w.category, UserWarning)]
+            except InvalidDefinition as e:
+                return "raised", None, str(e), [w for w in caught_ if issubclass(w.category, UserWarning)]
+
+    outcome, cls, err, warned = class_statement("C09M")
+    # the same definition stated a second time (another class object, same ids): the verdict may not depend on history
+    outcome2, _cls2, err2, warned2 = class_statement("C09M2")
 
     # ------------------------------------------------ oracle
     fin = [True if f else False for f in final]
@@ -181,7 +182,10 @@ def run(ctx, params):
         "initial": ini, "final": fin, "strict": st, "hard": hard, "soft": soft,
     }
     got = outcome if outcome == "raised" else ("warned" if warned else "accepted")
+    got2 = outcome2 if outcome2 == "raised" else ("warned" if warned2 else "accepted")
     shape = "any" if any_targets else "plain"
+    if got == expect and got2 != expect:
+        raise Mismatch(f"verdict-depends-on-history:{shape}", f"the same definition stated twice: first {got}, second {got2} (expected {expect})", desc)
     if got != expect:
         if expect == "raised":
             kind = "malformed-class-accepted" if hard else "strict-violation-accepted"
@@ -190,6 +194,21 @@ def run(ctx, params):
         else:
             kind = "warning-mismatch"
         raise Mismatch(f"{kind}:{shape}", f"expected {expect} ({hard or soft}), class statement {got}" + (f": {err}" if got == "raised" else ""), desc)
+    # a subclass that adds nothing is validated again, under its own strict_states
+    if got == expect and cls is not None and not any_targets:
+        strict2 = ctx.sym_bool("strict.sub")
+        with warnings.catch_warnings(record=True) as caught3:
+            warnings.simplefilter("always")
+            try:
+                type(StateMachine)("C09Sub", (cls,), {}, strict_states=strict2)
+                sub = "warned" if [w for w in caught3 if issubclass(w.category, UserWarning)] else "accepted"
+            except InvalidDefinition:
+                sub = "raised"
+        st2 = True if strict2 else False
+        exp_sub = "accepted" if soft is None else ("raised" if st2 else "warned")
+        if sub != exp_sub:
+            raise Mismatch(f"subclass-not-revalidated:{shape}", f"class {got}; `class Sub(M, strict_states={st2}): pass` was {sub}, expected {exp_sub} ({soft})", desc)
+        ctx.cover("subclass-revalidated")
     if expect == "accepted":
         ctx.cover("accepted")
     elif expect == "warned":
